@@ -447,3 +447,15 @@ CASES += [
  dict(id='cli-dot-takes-retain', kind='fire', file=M, old='let graph = BDDGraph::new(&result, args.filter);', new='let graph = BDDGraph::new(&result, args.retain_choices);', expect={'C14': '--filter'}),
  dict(id='cli-filter-local', kind='silent', file=M, old='let graph = BDDGraph::new(&result, args.filter);', new='let shown = args.filter;\n        let graph = BDDGraph::new(&result, shown);', checks=['C14', 'C10']),
 ]
+
+CASES += [
+ # front-to-back fold: the head is eliminated first - the other defining equation of the same fold
+ dict(id='exists-fold-forward', kind='silent', file=B, old=_EXISTS_OLD, new='''        s.iter().fold(b, |acc, symbol| self.exists_impl(symbol, acc))
+''', checks=['C01', 'C04']),
+ dict(id='exists-loop', kind='silent', file=B, old=_EXISTS_OLD, new='''        let mut acc = b;
+        for symbol in s.iter().rev() {
+            acc = self.exists_impl(symbol, acc);
+        }
+        acc
+''', checks=['C04']),
+]
